@@ -8,6 +8,7 @@ From Coq Require Import List ZArith Bool Lia.
 From SVC Require Import Base.AMap Base.Res Base.Dec Model.Types Model.Pricing
   Model.Handlers Model.EndBlock Model.Step Proofs.Inv Proofs.Lemmas Proofs.ReqLemmas
   Proofs.CtxOps Proofs.InvSched Proofs.InvEscrow Proofs.InvAll Proofs.StepSpecs_auth
+  Proofs.StepSpecs_earn
   Proofs.ReachRun Proofs.TraceLemmas Proofs.TraceSettle Proofs.TraceMoney.
 Import ListNotations.
 Open Scope Z_scope.
@@ -144,3 +145,48 @@ Example tx_endblock_debit :
   /\ firstn 4 (log (end_block tx_cfg s 5))
      = [EvBatchStart tx_c 2 11 2; EvIssue tx_r4 12 20 100; EvIssue tx_r3 11 20 100; EvDebit tx_c 20 200].
 Proof. vm_compute. repeat split. Qed.
+
+(* ------------------------------------------------------------------ *)
+(* the keeper API driven by the owning module, with its real scope: the Go keeper compares the
+   consumer only for a context that carries a module name; calls aimed at a context without one
+   are excluded from histories by wf_op.  Under that hypothesis the consumer named by the caller
+   is the context's own and the context does belong to a module. *)
+
+Theorem auth_mod_scoped cfg s o c who s' :
+  (exists provs thr cap timeout freq total, o = OModUpdate c who provs thr cap timeout freq total)
+  \/ o = OModPause c who \/ o = OModStart c who \/ o = OModKill c who ->
+  wf_op s o -> handle cfg s o = Ok s' ->
+  exists rc, get c (ctxs s) = Some rc /\ c_mod rc <> 0 /\ c_cons rc = who.
+Proof.
+  intros Ho Hwf H.
+  assert (Hrc : exists rc, get c (ctxs s) = Some rc /\ c_cons rc = who).
+  { destruct Ho as [(provs & thr & cap & timeout & freq & total & ->)|[ -> | [ -> | -> ]]].
+    - eapply C05_auth_mod_update; eauto.
+    - eapply C05_auth_mod_pause; eauto.
+    - eapply C05_auth_mod_start; eauto.
+    - eapply C05_auth_mod_kill; eauto. }
+  destruct Hrc as (rc & G & Hw). exists rc. split; [exact G|]. split; [|exact Hw].
+  destruct Ho as [(provs & thr & cap & timeout & freq & total & ->)|[ -> | [ -> | -> ]]]; cbn [wf_op] in Hwf.
+  - destruct Hwf as (_ & Hm). now apply Hm.
+  - now apply Hwf.
+  - now apply Hwf.
+  - now apply Hwf.
+Qed.
+
+(* withdrawing touches only earned-fee records of the signer's own providers *)
+Theorem withdraw_touches_own cfg s owner prov ok s' p :
+  Inv cfg s -> h_withdraw s owner prov ok = Ok s' ->
+  get p (earned s') <> get p (earned s) -> get p (owner_of s) = Some owner.
+Proof.
+  intros HI H Hne.
+  assert (Hok : ok = true) by (unfold h_withdraw in H; destruct ok; [reflexivity|discriminate]).
+  subst ok. destruct (Z.eq_dec prov 0) as [->|Hp].
+  - destruct (C13_withdraw_owner cfg s owner s' HI H) as (_ & _ & _ & _ & _ & _ & _ & Hoth & _).
+    destruct (get p (owner_of s)) as [o|] eqn:G.
+    + destruct (Z.eq_dec o owner) as [->|Hn]; [reflexivity|].
+      exfalso. apply Hne, Hoth. rewrite G. congruence.
+    + exfalso. apply Hne, Hoth. rewrite G. discriminate.
+  - destruct (C13_withdraw_provider cfg s owner prov s' HI Hp H) as (Gown & _ & _ & _ & _ & Hoth & _).
+    destruct (Z.eq_dec p prov) as [->|Hn]; [exact Gown|].
+    exfalso. apply Hne, Hoth, Hn.
+Qed.
